@@ -1,6 +1,7 @@
 (** C04 — property theorems only; each closed by [exact] of a lemma proved in Rules/RulesProofs.v. *)
 From Coq Require Import ZArith List.
 From VB Require Import Rules.RulesDefs Rules.RulesProofs.
+From VB Require Pop.SmDefs Pop.SmProofs Pop.SmWf Pop.SmTruth Rules.RulesFull Rules.RulesHist.
 Import ListNotations.
 Local Open Scope Z_scope.
 
@@ -31,16 +32,53 @@ Theorem C04_refused_names_invalid :
 Proof. exact refused_names_invalid. Qed.
 Print Assumptions C04_refused_names_invalid.
 
-(** invariant over all activation histories: the active chain consists of contextually valid blocks only.
-    FULL statement wanted: the same over the real op set (acceptBlock, setState, comparePopScore, invalidate,
-    removeSubtree, finalization) with unapply/apply instead of re-application from the root.  [_partial]: the
-    activation machine re-applies candidates from the root; the missing link is the exact-inverse law of
-    unapply (model of the POP state machine, C01/C02). *)
-Theorem C04_active_payloads_valid_partial :
+(** the same invariant on a simple activation machine that re-applies candidates from the root *)
+Theorem C04_simple_machine_invariant :
   forall W P ops, let m := run W P m0 ops in
     chain_valid W P st0 (m_chain m) /\ m_st m = after_chain st0 (m_chain m).
 Proof. exact active_payloads_valid_partial. Qed.
-Print Assumptions C04_active_payloads_valid_partial.
+Print Assumptions C04_simple_machine_invariant.
+
+(** tie to the as-coded POP state machine (Pop/Sm*.v: applyBlock/unapplyBlock/apply/unapply/setState/
+    comparePopScore with every VBK_ASSERT explicit): the command groups of a body, translated to the machine's
+    reference-count commands, all execute iff the body is contextually valid *)
+Theorem C04_groups_execute_iff_ctx_valid :
+  forall W P s c b pp, RulesFull.R pp (vknown s) ->
+    ((exists pp', SmDefs.gsexec SmDefs.pstate SmDefs.ccmd SmDefs.cexec SmDefs.cunexec [] (RulesFull.tr W P s c b) pp = (pp', true))
+     <-> ctx_valid W P s c b).
+Proof. exact RulesFull.groups_execute_iff_ctx_valid. Qed.
+Print Assumptions C04_groups_execute_iff_ctx_valid.
+
+(** FULL statement: in every state reachable by any history of connectBlock / setState / comparePopScore (any
+    scorer) of the as-coded machine whose blocks carry the translation of their payload bodies, the active chain
+    root..tip consists of contextually valid blocks only *)
+Theorem C04_active_payloads_valid :
+  forall W P bodyof s,
+    SmProofs.reachable RulesFull.base0 s -> RulesFull.compiled W P bodyof s ->
+    chain_valid W P st0 (RulesFull.active_bodies bodyof s).
+Proof. exact RulesFull.active_payloads_valid. Qed.
+Print Assumptions C04_active_payloads_valid.
+
+(** the same over histories: run ANY sequence of connectBlock (handing over the translated groups of the block's
+    body in its chain context at that time) / setState / comparePopScore from the bootstrap state *)
+Theorem C04_history_active_payloads_valid :
+  forall W P bodyof r h ops s,
+    RulesHist.ops_ok W P bodyof (SmDefs.c_init r h RulesFull.base0) ops ->
+    SmProofs.run (SmDefs.c_init r h RulesFull.base0) ops = SmDefs.Ok s ->
+    chain_valid W P st0 (RulesFull.active_bodies bodyof s).
+Proof. exact RulesHist.history_active_payloads_valid. Qed.
+Print Assumptions C04_history_active_payloads_valid.
+
+(** ... and every applied block is valid in the context made by the bodies below it *)
+Theorem C04_active_block_valid :
+  forall W P bodyof s,
+    SmProofs.reachable RulesFull.base0 s -> RulesFull.compiled W P bodyof s ->
+    forall j b, SmDefs.find SmDefs.ccmd (SmDefs.blocks _ _ s) j = Some b -> SmDefs.b_act _ b = true ->
+      j <> SmDefs.root _ _ s ->
+      ctx_valid W P (RulesFull.rctx bodyof (SmWf.cores s) (SmTruth.depth s (SmDefs.b_par _ b)) (SmDefs.b_par _ b))
+                (RulesFull.zid j) (bodyof j).
+Proof. exact RulesFull.active_block_valid. Qed.
+Print Assumptions C04_active_block_valid.
 
 Theorem C04_refused_not_activated :
   forall W P m pre c b post,
